@@ -37,6 +37,9 @@ func e2eTrack(c *e2eCtx, decoys bool) error {
 			if decoys {
 				cfg.Ignores = []string{".git", "vendor", "testdata", "ignoredir", "pkg/l0/ignored_file.go"}
 				cfg.SkipNested = r.Intn(4) != 0
+				if !cfg.SkipNested && r.Intn(2) == 0 { // nested modules are eligible: also with base INIT
+					cfg.Old = "INIT"
+				}
 			}
 			// mainEntries selection
 			if r.Intn(3) == 0 {
@@ -237,7 +240,7 @@ func (c *e2eCtx) trackAndJudge(s *scenario, decoys bool, r *rand.Rand) {
 	}
 	if decoys {
 		// conversely: changed Go files not excluded by the rules must be considered
-		for _, p := range []string{"vendorx/v.go", "ignoredirx/i.go", "pkg/l0/mv_in.go"} {
+		for _, p := range []string{"vendorx/v.go", "ignoredirx/i.go", "pkg/l0/mv_in.go", "nested/n.go", "nested/sub/n.go", "pluginapi/api.go", "_examples/hello/hello.go", ".hidden/h/h.go"} {
 			if _, ok := s.newTree[p]; ok && eligible(p, s.cfg) && in.Markers[p] == 0 {
 				c.violate("C13", fmt.Sprintf("%s is a changed eligible Go file (its directory name merely starts with an ignored name, or it was moved here from an excluded directory) but was not instrumented", p), rp(map[string]any{"file": p}))
 			}
